@@ -18,7 +18,7 @@ _FUNCS: dict = {}
 _AXIOM_CACHE: dict = {}
 
 Z3_TIMEOUT_MS = int(os.environ.get("SVX_Z3_TIMEOUT_MS", "20000"))
-CVC5_TIMEOUT_MS = int(os.environ.get("SVX_CVC5_TIMEOUT_MS", "30000"))
+CVC5_TIMEOUT_MS = int(os.environ.get("SVX_CVC5_TIMEOUT_MS", "15000"))
 STATS = {"z3_calls": 0, "z3_s": 0.0, "cvc5_calls": 0, "cvc5_s": 0.0, "norm_calls": 0, "norm_s": 0.0}
 
 
